@@ -370,6 +370,22 @@ def is_this_member(e, name=None):
     return name is None or e['name'] == name
 
 
+def tightest(f, pred):
+    """[(block, index, stmt, expr)] of the expressions satisfying pred, one per source construct: the CFG lists the
+    operands of `a && b`, `c ? x : y` also as statements of their own in the blocks guarded by a / c, and again inside
+    the full expression in the join block - the occurrence inside the SMALLEST statement is the one evaluated under
+    the tightest path condition"""
+    best = {}
+    for bid, i, s, e in f.walk():
+        if not pred(e):
+            continue
+        k = (show(e), e.get('loc'))
+        sz = sum(1 for _ in walk(s))
+        if k not in best or sz < best[k][0]:
+            best[k] = (sz, bid, i, s, e)
+    return [v[1:] for v in best.values()]
+
+
 def cond_sense(cond, sense):
     """(condition with __builtin_expect / casts / leading negations removed, the sense of the edge for THAT condition)"""
     c = strip_expect(cond)
